@@ -11,6 +11,7 @@ import (
 	"github.com/internetarchive/Zeno/internal/pkg/log"
 	"github.com/internetarchive/Zeno/internal/pkg/reactor"
 	"github.com/internetarchive/Zeno/internal/pkg/source/lq/sqlc_model"
+	"github.com/internetarchive/Zeno/internal/pkg/verifhook"
 	"github.com/internetarchive/Zeno/pkg/models"
 )
 
@@ -91,6 +92,7 @@ func consumerFetcher(ctx context.Context, wg *sync.WaitGroup, urlBuffer chan<- *
 			continue
 		}
 
+		verifhook.At("lq.claimed", URLs)
 		err = ensureAllIDsNotInReactor(URLs)
 		if err != nil {
 			spew.Dump(URLs)
@@ -166,7 +168,9 @@ func consumerSender(ctx context.Context, wg *sync.WaitGroup, urlBuffer <-chan *s
 			logger.Debug("sending new item to reactor", "item", newItem.GetShortID())
 
 			// Send the new Item to the reactor
+			verifhook.At("lq.insert", newItem)
 			err = reactor.ReceiveInsert(newItem)
+			verifhook.At("lq.inserted", newItem)
 			if err != nil {
 				if err == reactor.ErrReactorFrozen {
 					select {
